@@ -166,3 +166,93 @@ func runForge(c *vf.Check, gn string, k int) {
 		c.Nontrivial(id)
 	}
 }
+
+// runAdjustedOutput: prover strategy F2 - no new transcript at all. The output lists enter the pair-shuffle
+// verification only through sum_i Zsigma_i * Xbar_i (and the same for Ybar), with Zsigma readable from the proof. An
+// output adjusted AFTER the proof was made by (Xbar_0 + Zsigma_1*D, Xbar_1 - Zsigma_0*D) leaves that sum unchanged;
+// it is not a permutation of re-encryptions, so the unchanged honest proof must not verify for it.
+func runAdjustedOutput(c *vf.Check, gn string, k int) {
+	pk := "C15/pair/" + gn
+	w := newWorld(gn)
+	q := w.q
+	md := func(v *big.Int) *big.Int { return new(big.Int).Mod(v, q) }
+	for which := 0; which < 3; which++ {
+		which := which
+		names := []string{"Xbar adjusted", "Ybar adjusted", "both adjusted"}
+		id := fmt.Sprintf("pair %s k=%d honest proof, output adjusted afterwards along the kernel of Zsigma (%s)", gn, k, names[which])
+		c.Case(id, pk, func(x *vf.Ctx) {
+			in := w.input(k, 0)
+			var beta []*big.Int
+			pi := make([]int, k)
+			for j := 0; j < k; j++ {
+				beta = append(beta, alpha.Rand(fmt.Sprintf("c15-beta-%d", j), q))
+				pi[j] = (j + 1) % k
+			}
+			out := w.honestOutput(in, pi, beta)
+			prf, err := w.provePair(k, pi, in, beta, id)
+			if err != nil {
+				x.Failf(pk+"/prove-failed", "%s: Prove: %v", id, err)
+				return
+			}
+			if err := w.verifyPair(in, out, prf, w.G, w.H); err != nil {
+				x.Failf(pk+"/honest-rejected", "%s: honest proof rejected: %v", id, err)
+				return
+			}
+			// read Zsigma out of the transcript with a reading verifier of the same message shapes
+			var zs []kyber.Scalar
+			reader := func(ctx proof.VerifierContext) error {
+				mk := func() []kyber.Point { return make([]kyber.Point, k) }
+				p1 := fEga1{A: mk(), C: mk(), U: mk(), W: mk()}
+				if err := ctx.Get(&p1); err != nil {
+					return err
+				}
+				v2 := fEga2{Zrho: make([]kyber.Scalar, k)}
+				if err := ctx.PubRand(&v2); err != nil {
+					return err
+				}
+				p3 := fEga3{D: mk()}
+				if err := ctx.Get(&p3); err != nil {
+					return err
+				}
+				var v4 fEga4
+				if err := ctx.PubRand(&v4); err != nil {
+					return err
+				}
+				p5 := fEga5{Zsigma: make([]kyber.Scalar, k)}
+				if err := ctx.Get(&p5); err != nil {
+					return err
+				}
+				zs = p5.Zsigma
+				return nil
+			}
+			_ = proof.HashVerify(w.s, "c15", reader, prf)
+			if len(zs) != k || zs[0] == nil || zs[1] == nil {
+				c.Class("pair/adjusted-output-not-buildable", func() any { return id })
+				return
+			}
+			s0, s1 := alpha.FromScalar(zs[0]), alpha.FromScalar(zs[1])
+			d := alpha.Rand("c15-adjust-delta", q)
+			adj := pairs{a: append([]*big.Int{}, out.a...), b: append([]*big.Int{}, out.b...)}
+			if which != 1 {
+				adj.a[0] = md(new(big.Int).Add(adj.a[0], new(big.Int).Mul(s1, d)))
+				adj.a[1] = md(new(big.Int).Sub(adj.a[1], new(big.Int).Mul(s0, d)))
+			}
+			if which != 0 {
+				adj.b[0] = md(new(big.Int).Add(adj.b[0], new(big.Int).Mul(s1, d)))
+				adj.b[1] = md(new(big.Int).Sub(adj.b[1], new(big.Int).Mul(s0, d)))
+			}
+			if w.isShuffle(in, adj) {
+				c.Class("pair/adjusted-output-is-a-shuffle", func() any { return id })
+				return
+			}
+			c.Eval(1)
+			if w.verifyPair(in, adj, prf, w.G, w.H) == nil {
+				x.Failf(pk+"/adjusted-output-accepted", "%s: the unchanged honest proof verifies for an output that is not a permutation of re-encryptions (output_0 + Zsigma_1*D, output_1 - Zsigma_0*D)", id)
+				return
+			}
+			c.Class("pair/adjusted-output-rejected", func() any { return id })
+		})
+		c.Count("transitions", 1)
+		c.Nontrivial(id)
+	}
+}
